@@ -265,6 +265,10 @@ fn l5() -> Vec<Vec<u8>> {
         m.ar.push(mx_rec(&nm("b.a"), 304, 1, &nm("mail.x.y")));
         v.push(encode(&m, Strategy::Max));
     }
+    // deep trees of one-byte labels (the renamer re-compresses: chains of 15..17 pointers in its output)
+    for (_, p) in crate::c06::l5_packets().into_iter().filter(|(f, _)| *f == "nest1").skip(12) {
+        v.push(p);
+    }
     let al = aligned_pointer_packets();
     v.push(al[4].clone());
     v.push(al[5].clone());
